@@ -123,6 +123,14 @@ func (e *Env) eval(ex Expr) Val {
 				}
 			}
 		}
+		// raw heap array: T.f (for quantification over all objects: T.f[m])
+		if dn := dottedName(v); dn != "" {
+			if _, isVar := e.vars[rootIdent(v)]; !isVar {
+				if arr, es := e.x.arrayByName(dn); arr != "" {
+					return term(e.heap(arr, es), "(Array Int "+es+")", nil)
+				}
+			}
+		}
 		base := e.eval(v.X)
 		return e.selectField(base, v.Name, ex)
 	case *EIndex:
@@ -427,9 +435,21 @@ func (e *Env) quant(q *EQuant) Val {
 	vars := map[string]Val{}
 	var decls []string
 	var names []string
-	for _, n := range q.Vars {
+	for k, n := range q.Vars {
 		sym := e.x.freshBound(n)
 		vars[n] = intv(sym)
+		if k < len(q.Types) && q.Types[k] != "" {
+			tn := strings.TrimPrefix(q.Types[k], "*")
+			obj := e.x.v.pkg.Pkg.Scope().Lookup(tn)
+			if obj == nil {
+				e.fail("unknown type %s in quantifier", tn)
+			}
+			var ty types.Type = obj.Type()
+			if strings.HasPrefix(q.Types[k], "*") {
+				ty = types.NewPointer(ty)
+			}
+			vars[n] = term(sym, SInt, ty)
+		}
 		decls = append(decls, "("+sym+" Int)")
 		names = append(names, sym)
 	}
@@ -579,7 +599,7 @@ func (e *Env) call(c *ECall) Val {
 	case "held":
 		// held(lockref): the lock is in the ghost lock set
 		a := arg(0)
-		return boolv(sel(e.ghostv("locks"), a.T))
+		return boolv(app(">", sel(e.ghostv("locks"), a.T), "0"))
 	}
 	// prelude functions
 	if pf, ok := e.x.v.prelude[c.Fun]; ok {
@@ -652,6 +672,23 @@ func (e *Env) evalTargets(list []string) (ts []target, err error) {
 				e.fail("unknown heap array %q in modifies", name)
 			}
 			ts = append(ts, target{array: arr, esort: es, fresh: true})
+		case strings.HasPrefix(s, "elems(") && strings.HasSuffix(s, ")"):
+			// the elements of the array a pointer-to-array designates (nil pointer: nothing)
+			inner := s[len("elems(") : len(s)-1]
+			ex, perr := parseExpr(inner)
+			if perr != nil {
+				e.fail("%v", perr)
+			}
+			v := e.eval(ex)
+			pt, ok := v.Ty.Underlying().(*types.Pointer)
+			if !ok {
+				e.fail("elems() of non-pointer %s", inner)
+			}
+			a, ok := pt.Elem().Underlying().(*types.Array)
+			if !ok {
+				e.fail("elems() of non-array pointer %s", inner)
+			}
+			ts = append(ts, target{array: arrMemName(pt.Elem()), esort: "(Array Int " + sortOf(a.Elem()) + ")", ref: v.T})
 		case strings.HasPrefix(s, "content(") && strings.HasSuffix(s, ")"):
 			inner := s[len("content(") : len(s)-1]
 			ex, perr := parseExpr(inner)
@@ -741,6 +778,9 @@ func (x *Exec) arrayByName(s string) (string, string) {
 	parts := strings.SplitN(s, ".", 2)
 	if len(parts) != 2 {
 		return "", ""
+	}
+	if parts[0] == "cell" {
+		return s, parts[1]
 	}
 	if parts[0] == "G" {
 		if obj := x.v.pkg.Pkg.Scope().Lookup(parts[1]); obj != nil {
